@@ -115,28 +115,41 @@ vharness! {
     }
 }
 
+fn wait_stored_case(spurious: bool, did: bool) {
+    let acting = 0;
+    let (mut e, n, _roles, sync) = world(acting, true, spurious, did);
+    let c = [clock(&e, 0), clock(&e, 1), clock(&e, 2)];
+    sched::enter(&mut e, || n.wait(Location::disabled()));
+    let st = n.state.get(&e.objects);
+    assert!(!st.notified);
+    assert!(st.did_spur == did);
+    assert!(eq(&clock(&e, acting), &max_raw(&c[acting], &sync)));
+    assert!(eq(&clock(&e, 1), &c[1]) && eq(&clock(&e, 2), &c[2]));
+    assert!(sched::switches() == 0);
+    assert!(code_of(&e, acting) == 0);
+    kani::cover!(!le(&sync, &c[acting]), "the waiter learns the notifier's view");
+    std::mem::forget(e);
+}
+
 vharness! {
-    /// @prop C08 @tier quick @mode fast @cost 2 @funcs Notify::wait,State::might_spur,Path::branch_spurious,Ref::branch_opaque,Synchronize::sync_load @bounds 3 threads, Notify with a stored notification, spurious flag symbolic (first exploration of the spurious point: not spurious), waiter = thread 0
+    /// @prop C08 @tier quick @mode fast @cost 3 @timeout 3600 @funcs Notify::wait,State::might_spur,Ref::branch_opaque,Synchronize::sync_load @bounds 3 threads, Notify with a stored notification, no spurious wake-ups (the JoinHandle configuration), waiter = thread 0
     /// a notification issued before the wait is not lost: wait() on a notified Notify returns without blocking, consumes the notification exactly once and acquires the notifier's view.
     #[cfg_attr(kani, kani::unwind(8))]
-    fn notify_wait_consumes_stored_t0() {
-        let acting = 0;
-        let spurious: bool = kani::any();
-        let did: bool = kani::any();
-        let (mut e, n, _roles, sync) = world(acting, true, spurious, did);
-        let c = [clock(&e, 0), clock(&e, 1), clock(&e, 2)];
-        sched::enter(&mut e, || n.wait(Location::disabled()));
-        let st = n.state.get(&e.objects);
-        assert!(!st.notified);
-        assert!(st.did_spur == did);
-        assert!(eq(&clock(&e, acting), &max_raw(&c[acting], &sync)));
-        assert!(eq(&clock(&e, 1), &c[1]) && eq(&clock(&e, 2), &c[2]));
-        assert!(sched::switches() == 0);
-        assert!(code_of(&e, acting) == 0);
-        kani::cover!(spurious && !did, "a spurious-wakeup decision point was recorded");
-        kani::cover!(!le(&sync, &c[acting]), "the waiter learns the notifier's view");
-        std::mem::forget(e);
-    }
+    fn notify_wait_consumes_stored_t0() { wait_stored_case(false, false) }
+}
+
+vharness! {
+    /// @prop C08 @tier thorough @mode fast @cost 3 @timeout 3600 @funcs Notify::wait,Path::branch_spurious @bounds as notify_wait_consumes_stored_t0 with spurious wake-ups enabled and not yet used (the decision point is recorded, first value: not spurious)
+    /// wait() with the spurious decision point on its first exploration behaves like a normal wait and leaves the spurious budget untouched.
+    #[cfg_attr(kani, kani::unwind(8))]
+    fn notify_wait_consumes_stored_spurious_armed() { wait_stored_case(true, false) }
+}
+
+vharness! {
+    /// @prop C08 @tier quick @mode fast @cost 3 @timeout 3600 @funcs Notify::wait @bounds as notify_wait_consumes_stored_t0 with the one spurious wake-up already used
+    /// after the single modelled spurious return no further spurious decision is taken: the flag stays set (at most one spurious return per Notify).
+    #[cfg_attr(kani, kani::unwind(8))]
+    fn notify_wait_after_spurious_used() { wait_stored_case(true, true) }
 }
 
 vharness! {
@@ -202,6 +215,10 @@ vharness! {
         let acting = 1;
         let mut e = ev::mk_exec(3, 1, None);
         tv::activate(&mut e.threads, acting);
+        // the parking thread's last scheduling point was an operation on some
+        // object (here: a mutex it has released again)
+        e.objects.insert(crate::rt::mutex::verif::mk_unlocked());
+        tv::th(&mut e.threads, acting).operation = Some(ov::op(0, crate::rt::object::Action::Opaque));
         let token: bool = kani::any();
         tv::th(&mut e.threads, acting).state = tv::state_from_code(if token { 1 } else { 0 });
         let other: u8 = kani::any();
@@ -216,6 +233,9 @@ vharness! {
             assert!(code_of(&e, acting) == 2);
             assert!(sched::switches() == 1);
             assert!(tv::active_index(&e.threads) == Some(0));
+            // a parked thread waits for unpark only: it is no longer queued on
+            // whatever object it touched last (else that object's release would wake it)
+            assert!(tv::th_ref(&e.threads, acting).operation.is_none());
         }
         assert!(code_of(&e, 2) == other);
         kani::cover!(token, "token consumed");
